@@ -598,6 +598,20 @@ func (s *StateStoreWrap) WritePersistentState(st *pb.PersistentState) error {
 	return err
 }
 
+// SetFail makes the next n writes fail with err.
+func (s *StateStoreWrap) SetFail(n int, err error) {
+	s.mu.Lock()
+	s.FailNext, s.FailErr = n, err
+	s.mu.Unlock()
+}
+
+// PendingFailures returns the number of injected failures not yet consumed.
+func (s *StateStoreWrap) PendingFailures() int {
+	s.mu.Lock()
+	defer s.mu.Unlock()
+	return s.FailNext
+}
+
 // Written returns the successfully written states.
 func (s *StateStoreWrap) Written() []*pb.PersistentState {
 	s.mu.Lock()
@@ -616,6 +630,20 @@ type SyncerWrap struct {
 	FailErr  error
 	Calls    atomic.Int64
 	OK       atomic.Int64
+}
+
+// SetFail makes the next n syncs fail with err.
+func (s *SyncerWrap) SetFail(n int, err error) {
+	s.mu.Lock()
+	s.FailNext, s.FailErr = n, err
+	s.mu.Unlock()
+}
+
+// PendingFailures returns the number of injected failures not yet consumed.
+func (s *SyncerWrap) PendingFailures() int {
+	s.mu.Lock()
+	defer s.mu.Unlock()
+	return s.FailNext
 }
 
 func (s *SyncerWrap) Do() error {
@@ -863,6 +891,18 @@ func (s *Store) StartPutRound(ctx context.Context) *Task {
 	t := &Task{Done: make(chan struct{}), s: s}
 	go func() {
 		s.Syncer.ProcessBlockPut(ctx)
+		close(t.Done)
+	}()
+	return t
+}
+
+// StartPutLoop runs ProcessBlockPut until it returns false, the way
+// new_blob_access.go does.
+func (s *Store) StartPutLoop(ctx context.Context) *Task {
+	t := &Task{Done: make(chan struct{}), s: s}
+	go func() {
+		for s.Syncer.ProcessBlockPut(ctx) {
+		}
 		close(t.Done)
 	}()
 	return t
